@@ -13,12 +13,12 @@ import (
 	"sync"
 	"time"
 
-	builderapi "github.com/attestantio/go-builder-client/api"
 	relaytypes "github.com/attestantio/go-block-relay/types"
+	builderapi "github.com/attestantio/go-builder-client/api"
 	builderv1 "github.com/attestantio/go-builder-client/api/v1"
-	"github.com/attestantio/go-eth2-client/spec/phase0"
 	consensusapi "github.com/attestantio/go-eth2-client/api"
 	apiv1 "github.com/attestantio/go-eth2-client/api/v1"
+	"github.com/attestantio/go-eth2-client/spec/phase0"
 	"verif/checks/refcfg"
 	"verif/checks/relaycommon"
 	"verif/harness"
@@ -29,6 +29,7 @@ type round struct {
 	FailRelays   []int    `json:"failing_relays,omitempty"`
 	FailNodes    []int    `json:"failing_nodes,omitempty"`
 	FailSigning  []string `json:"validators_failing_to_sign,omitempty"`
+	FailSignOnce []string `json:"validators_whose_first_signing_request_fails,omitempty"`
 	SleepBefore  bool     `json:"one_second_pause_before,omitempty"`
 	Unresolvable []string `json:"unresolvable_validators,omitempty"`
 }
@@ -117,12 +118,18 @@ func history(c *harness.Ctx, id string, r *rand.Rand) {
 			}
 		}
 		signFail := map[int]bool{}
+		signOnce := map[int]bool{}
 		for i, a := range accts {
-			if r.Intn(7) == 0 {
+			switch r.Intn(8) {
+			case 0:
 				a.SetFault(harness.FaultError)
 				signFail[i] = true
 				rd.FailSigning = append(rd.FailSigning, a.FullName())
-			} else {
+			case 1:
+				a.SetFault(harness.FaultErrorOnce)
+				signOnce[i] = true
+				rd.FailSignOnce = append(rd.FailSignOnce, a.FullName())
+			default:
 				a.SetFault(harness.FaultNone)
 			}
 		}
@@ -207,6 +214,7 @@ func history(c *harness.Ctx, id string, r *rand.Rand) {
 		}
 		for i := range vals {
 			w := wants[i]
+			missingForOnce := 0
 			for a := range env.Relays {
 				reg := got[a][i]
 				var wr *refcfg.RRelay
@@ -215,8 +223,13 @@ func history(c *harness.Ctx, id string, r *rand.Rand) {
 				}
 				expect := wr != nil && !w.unre && !signFail[i]
 				switch {
+				case expect && reg == nil && signOnce[i] && missingForOnce == 0:
+					missingForOnce++ // the one relay whose signing request failed
 				case expect && reg == nil:
 					key := "registration-missing"
+					if signOnce[i] {
+						key = "registration-missing:after-one-signing-failure-for-another-relay"
+					}
 					if len(rd.Unresolvable) > 0 {
 						key = "registration-missing:another-validator-unresolvable"
 					} else if len(rd.FailSigning) > 0 {
@@ -261,7 +274,7 @@ func history(c *harness.Ctx, id string, r *rand.Rand) {
 			}
 			for i := range vals {
 				w := wants[i]
-				expect := w.res != nil && len(w.res.Relays) > 0 && !w.unre && !signFail[i]
+				expect := w.res != nil && len(w.res.Relays) > 0 && !w.unre && !signFail[i] && !signOnce[i]
 				vr := regSeen[i]
 				if expect && vr == nil {
 					c.Violate("node-registration-missing", fmt.Sprintf("round %d: beacon node %d did not receive a registration for %s", ri, ni, accts[i].FullName()), id, detail())
@@ -392,14 +405,14 @@ var _ = builderapi.VersionedSignedValidatorRegistration{}
 
 func main() {
 	harness.Main(&harness.Spec{
-		Property: "C11",
-		Level:    "exploration",
-		Rule:     "histories of 2-4 rounds {set configuration (grammar-generated v2 documents A/B/A..., optionally with a trailing unresolvable proposer entry), refresh, registration round, proposal preparations} over 2-5 validators (real BLS keys), 4 relays and 2 beacon nodes, with random subsets of failing relays, failing beacon nodes and validators whose signing fails, and one-second pauses between some rounds; finally registrations arriving over REST. distinct = (validators, multiset of per-round fault patterns)",
-		Batches:  func(string) int { return 2 },
-		Parallel: 2,
-		Run:      run,
-		MinDistinct: 40,
+		Property:     "C11",
+		Level:        "exploration",
+		Rule:         "histories of 2-4 rounds {set configuration (grammar-generated v2 documents A/B/A..., optionally with a trailing unresolvable proposer entry), refresh, registration round, proposal preparations} over 2-5 validators (real BLS keys), 4 relays and 2 beacon nodes, with random subsets of failing relays, failing beacon nodes and validators whose signing fails, and one-second pauses between some rounds; finally registrations arriving over REST. distinct = (validators, multiset of per-round fault patterns)",
+		Batches:      func(string) int { return 2 },
+		Parallel:     2,
+		Run:          run,
+		MinDistinct:  40,
 		ChildTimeout: func(string) time.Duration { return 40 * time.Minute },
-		Assumptions: []string{"resolution reference = refcfg (as C10)", "beacon nodes receive one registration per validator (that of any one of its relays)", "stale reuse is observed through timestamps, hence only across rounds separated by the one-second pauses"},
+		Assumptions:  []string{"resolution reference = refcfg (as C10)", "beacon nodes receive one registration per validator (that of any one of its relays)", "stale reuse is observed through timestamps, hence only across rounds separated by the one-second pauses"},
 	})
 }
